@@ -16,6 +16,7 @@ def harnesses(tier):
         H('rbx_binary', 'k3_referent_array_n2', 'K3.n2', 'referent array: delta + zigzag + interleave round trip and layout', 'N=2, -1 <= r < 2^30', functions=['write_referent_array', 'read_referent_array']),
         H('rbx_binary', 'k6_bytes16_n1', 'K6.n1', '16-byte column codec (UniqueId) round trip + layout', 'N=1', functions=['write/read_interleaved_bytes::<16>']),
         H('rbx_types', 'k4_rotation_id_roundtrip', 'K4.ids', 'from_basic_rotation_id(id)=Ok(m) => m.to_basic_rotation_id()=Some(id)', 'all 256 ids, unwind 3 (Error drop glue)', functions=['Matrix3::from_basic_rotation_id', 'Matrix3::to_basic_rotation_id', 'Vector3::to_normal_id', 'approx_unit_or_zero']),
+        H('rbx_types', 'k4_rotation_table_proper', 'K4.proper', 'every basic rotation id maps to a proper rotation of the cube: entries in {-1,0,1}, orthonormal rows, determinant +1 (oracle independent of the table)', 'all 256 ids', timeout=900, functions=['Matrix3::from_basic_rotation_id']),
         H('rbx_types', 'k4_rotation_snap_within_epsilon', 'K4.snap', 'to_basic_rotation_id(m)=Some(id) only if every entry within f32::EPSILON of that rotation', '9 symbolic f32 (all bit patterns)', timeout=1500,
           functions=['Matrix3::to_basic_rotation_id', 'approx_unit_or_zero'], finding_key='rotation_snap_beyond_epsilon', finding_what='a matrix farther than epsilon from a basic rotation is encoded as that rotation id'),
         H('rbx_types', 'k4_normal_id_within_epsilon', 'K4.normal', 'Vector3::to_normal_id=Some(id) only within epsilon of the basis vector', '3 symbolic f32', timeout=900,
